@@ -132,7 +132,7 @@ def gen_scenarios(chk, wd, gen_module, *, cfg_text=None, label="gen", workers=8,
     return scns
 
 
-def run_sim(chk, wd, scns, trace_module, *, label="sim", shards=12, sig_of=None, what_of=None, keep_traces=False, trace_cfg=None):
+def run_sim(chk, wd, scns, trace_module, *, label="sim", shards=12, sig_of=None, what_of=None, keep_traces=False, trace_cfg=None, runner="sim"):
     """Execute scenarios on the real code (h3v sim) and validate every recorded trace with a TLC trace spec.
     Scenarios the spec cannot explain become violations (with a self-contained replay file)."""
     if not scns:
@@ -147,7 +147,7 @@ def run_sim(chk, wd, scns, trace_module, *, label="sim", shards=12, sig_of=None,
         with open(sf, "w") as f:
             for s in parts[k]:
                 f.write(json.dumps(s) + "\n")
-        vlib.h3v("sim", sf, tf)
+        vlib.h3v(runner, sf, tf)
         r = vlib.tlc(trace_module, trace_cfg, name=f"{label}.{k}.validate", wd=wd, workers=1, env={"TRACE": tf}, deque=True, xmx="3g")
         return k, tf, r
 
@@ -176,7 +176,7 @@ def run_sim(chk, wd, scns, trace_module, *, label="sim", shards=12, sig_of=None,
                 why = vlib._unesc.sub(lambda m: m.group(1), why)
                 sig = sig_of(s, traces.get(sid, []), why) if sig_of else f"{label}:rejected"
                 what = what_of(s, traces.get(sid, []), why) if what_of else f"scenario {sid} ({json.dumps({k: v for k, v in s.items() if k not in ('steps', 'handlers', 'default_handler', 'cfg')})[:200]}) is not a behaviour of {trace_module}: {why[:120]}"
-                chk.violation(sig, what, {"kind": "scenario", "trace_module": trace_module, "trace_cfg": trace_cfg, "scenario": s, "trace": traces.get(sid, []), "why": why})
+                chk.violation(sig, what, {"kind": "scenario", "trace_module": trace_module, "trace_cfg": trace_cfg, "runner": runner, "scenario": s, "trace": traces.get(sid, []), "why": why})
         if not keep_traces:
             try:
                 os.remove(tf)
@@ -195,7 +195,7 @@ def replay_scenario(path, chk):
     if rep.get("kind") != "scenario":
         return replay_vector(path, chk)
     wd = vlib.workdir(chk.prop + "-replay")
-    n = run_sim(chk, wd, [rep["scenario"]], rep["trace_module"], label="replay", shards=1, keep_traces=True, trace_cfg=rep.get("trace_cfg"))
+    n = run_sim(chk, wd, [rep["scenario"]], rep["trace_module"], label="replay", shards=1, keep_traces=True, trace_cfg=rep.get("trace_cfg"), runner=rep.get("runner", "sim"))
     if chk.violations:
         print(f"VIOLATION property={chk.prop} replay={path}  # reproduced: {chk.violations[0]['what'][:200]}")
         return 1
